@@ -64,5 +64,6 @@ func main() {
 		os.Exit(2)
 	}
 	plan := mk(opt)
+	drive.AddSharedJobs(plan)
 	os.Exit(drive.Check(w, plan, opt))
 }
